@@ -11,14 +11,32 @@ for n in $NAMES; do
   if [ -n "$(git -C /repo status --porcelain --untracked-files=no)" ]; then echo "/repo dirty"; exit 2; fi
   git -C /repo apply "$P" || { echo "$n: patch does not apply"; continue; }
   CAUGHT=""; BROKEN=""
-  for ID in $ALL; do
+  OWN=${n%%-*}
+  case $OWN in
+    C07|C08) LIST="C07 C08 C01 C18";;
+    C01) LIST="C01 C02 C03 C14";;
+    C02|C03|C04|C14) LIST="C01 C02 C03 C04 C14 C19 C12";;
+    C05) LIST="C05 C04 C03";;
+    C06) LIST="C06 C03 C09";;
+    C09) LIST="C09 C06";;
+    C10) LIST="C10 C01 C03";;
+    C11|C12|C13) LIST="C11 C12 C13 C14 C19";;
+    C15|C16|C17) LIST="C15 C16 C17";;
+    C18) LIST="C18 C08 C09";;
+    C19) LIST="C19 C11 C03";;
+    C20) LIST="C20 C06";;
+    *) LIST="$ALL";;
+  esac
+  [ -n "${FULL:-}" ] && LIST="$ALL"
+  RAN="$LIST"
+  for ID in $LIST; do
     OUTP=$(/verif/bin/check $ID quick 2>&1); RC=$?
     if [ $RC -eq 1 ]; then CAUGHT="$CAUGHT $ID"; elif [ $RC -ne 0 ]; then BROKEN="$BROKEN $ID(exit$RC)"; fi
   done
   git -C /repo checkout -- .
-  echo "| $n | ${CAUGHT:- none} | ${BROKEN:--} |" | tee -a $TMP
+  echo "| $n | ${CAUGHT:- none} | $RAN | ${BROKEN:--} |" | tee -a $TMP
 done
-{ echo "| seeded change | quick checks that report a violation | inconclusive |"; echo "|---|---|---|"; cat $TMP; } > $OUT.new
+{ echo "| seeded change | quick checks that report a violation | quick checks run against it | inconclusive |"; echo "|---|---|---|---|"; cat $TMP; } > $OUT.new
 if [ -z "$@" ]; then mv $OUT.new $OUT; else cat $OUT.new; rm $OUT.new; fi
 rm -f $TMP
 # leave the build outputs matching the unchanged tree
